@@ -546,11 +546,16 @@ def check_C04(chk: Check, replay) -> None:
 
 
 def vary_spelling(d: dict, rng: random.Random) -> dict:
-    """Equivalent spellings upstream uses: hex vs decimal integer defaults."""
+    """Equivalent spellings upstream uses: hex vs decimal integer defaults; `ignorable` on tagged fields
+    that have an explicit default."""
     d = json.loads(json.dumps(d))
 
     def walk(fs):
         for f in fs:
+            # `ignorable` is not recorded in a generated class; where an explicit default exists it must not
+            # matter (upstream marks most tagged fields ignorable, e.g. FinalizedFeaturesEpoch default -1)
+            if f["hasdefault"] and f.get("tagged") not in (None, defgen.NONE) and f["tag"] >= 0:
+                f["ignorable"] = True
             if (f["hasdefault"] and f["tk"] == "prim" and f["t"] in ("int8", "int16", "int32", "int64", "uint16", "uint32")
                     and f["spelling"] and f["spelling"].isdigit() and f["name"] not in ("ErrorCode", "PartitionErrorCode")
                     and not f["name"].endswith("Ms") and rng.random() < 0.3):
